@@ -32,6 +32,34 @@ def release_all_rules(ctx, ck, K, rid):
     ra = ctx.body(RA)
     me = T("param", 1, ra.dbg.get(1, ""))
     loops = sorted(ra.loops())
+    if not loops:
+        # the same thing as an iterator expression:
+        #   snapshot.into_iter().flat_map(|k| self.step(Released(k)).events).collect()
+        rets = [p for p in mir.walk_function(ra) if p.outcome[0] == "return"]
+        ok = len(rets) >= 1
+        for p in rets:
+            r = p.outcome[1]
+            good = False
+            if isinstance(r, tuple) and r[0] == "call" and method_name(r[1]) == "collect" and isinstance(r[2][0], tuple) and r[2][0][0] == "call" and method_name(r[2][0][1]) == "flat_map":
+                it, clos = r[2][0][2]
+                snap = isinstance(it, tuple) and it[0] == "iter" and it[2] == "fwd" and isinstance(it[1], tuple) and it[1][0] == "clone" and list_of(it[1][1]) == "IP"
+                if snap and isinstance(clos, tuple) and clos[0] == "closure":
+                    k_ = T("flatelem", it)
+                    cps, cb = mir.walk_closure(ctx.body, clos, param_terms=[k_])
+                    crets = [q for q in cps if q.outcome[0] == "return"]
+                    if len(crets) == 1 and not [e for e in crets[0].events if e.kind == "guard"]:
+                        cr = crets[0].outcome[1]
+                        calls = [e for e in crets[0].events if e.kind == "call" and e.a == MOD + "Mapper::step"]
+                        good = (len(calls) == 1 and mir.strip(calls[0].b[0]) == me and kt.is_event_agg(calls[0].b[1]) and calls[0].b[1][2] == "Released"
+                                and mir.strip(calls[0].b[1][3][0]) == k_ and mir.strip(cr) == T("field", calls[0].c, "events"))
+            if any(e.kind in ("guard",) and not (isinstance(e.a, tuple) and e.a[0] == "variantof") for e in p.events):
+                good = False      # a fast path / early return
+            ok = ok and good
+        ck.ob(rid, RA, "single-loop", ok, detail=None if ok else "neither a loop over a snapshot of input_pressed_keys nor snapshot.into_iter().flat_map(|k| self.step(Released(k)).events).collect()")
+        ck.ob(rid, RA, "iterates-every-key-of-input_pressed_keys(exit-only-by-exhaustion)", ok)
+        ck.ob(rid, RA, "every-return-path-runs-the-complete-loop(no-early-return,no-fast-path)", ok)
+        ck.floor(rid, "release_all-return-paths", len(rets), 1)
+        return
     ck.ob(rid, RA, "single-loop", len(loops) == 1)
     if len(loops) == 1:
         il = ktloops.index_loop(ra, loops[0], full=True)
